@@ -14,6 +14,7 @@ Thread interleavings, the curve-registry lock and first-use races are NOT reacha
 from props import c17, c03, c11, c07
 from vlib.env import Harness
 from vlib.llsym import kern
+from props.ecc_c import run_ec_scalar_mem, ec_scalar_shapes, EC_UNIT
 
 
 # ---- Python level: copy() continues independently (CMAC keeps its partial block in Python)
@@ -204,7 +205,7 @@ def run_ec_frame(env, sh):
 
 
 OWN = dict(copy_indep=Harness('copy_indep', run_copy_indep), hash_frame=Harness('hash_frame', run_hash_frame, timeout_ms=120000),
-           ec_frame=Harness('ec_frame', run_ec_frame, budget_s=900))
+           ec_frame=Harness('ec_frame', run_ec_frame, budget_s=900), ec_scalar_mem=Harness('ec_scalar_mem', run_ec_scalar_mem, budget_s=900))
 HARNESSES = dict(c17.HARNESSES)
 HARNESSES.update(OWN)
 
